@@ -43,7 +43,7 @@ prop("C01", lambda t, s: [("conc", n(t, 1, 10)), ("conc", n(t, 1, 10)), ("conc",
      exhaustive_note="McFaults enumerates every first-order fault of spec/Faults.tla on the tiny domain; every faulted buffer goes to all 16 packet decoders, 7 sub-decoders and the datagram decoder; McFaultsDev does the same from the encodings of the deviating model (SLI with PT 205, CCFB num_reports n-1), which are the ones the library's SLI and CCFB decoders accept")
 prop("C02", lambda t, s: [("mc", "Mc", "McWireUnk"), ("drive", "sizes", 0), ("drive", "dict", 0), ("mc", "Mc", "McWire"), ("mc", "Mc", "McWirePairs"), ("mc", "Mc", "McReuse"), ("drive", "reuserand", n(t, 300, 10000)), ("drive", "rt", n(t, 1500, 60000)), ("drive", "rtlist", n(t, 300, 10000)), ("drive", "bigframes", n(t, 0, 1)), ("drive", "recombine", n(t, 300, 10000))], exhaustive_note=WIRE_NOTE)
 prop("C03", lambda t, s: [("drive", "rtlist", n(t, 300, 10000)), ("drive", "sizes", 0), ("drive", "dict", 0), ("mc", "Mc", "McWire"), ("mc", "Mc", "McWirePairs"), ("mc", "Mc", "McVariants"), ("drive", "rt", n(t, 1500, 60000)), ("drive", "bigframes", n(t, 0, 1)), ("mc", "Mc", n(t, "McCompound", "McCompound4")), ("drive", "cprand", n(t, 200, 10000)), ("mc", "Mc", "McLoose"), ("drive", "errpaths", n(t, 200, 10000))], exhaustive_note=WIRE_NOTE)
-prop("C05", lambda t, s: [("drive", "sizes", 0), ("mc", "Mc", "McWire"), ("mc", "Mc", "McWirePairs"), ("drive", "rt", n(t, 1500, 60000)), ("drive", "rtlist", n(t, 300, 10000)), ("drive", "bigframes", n(t, 0, 1)), ("drive", "cprand", n(t, 200, 10000)), ("mc", "Mc", "McLoose")], exhaustive_note=WIRE_NOTE)
+prop("C05", lambda t, s: [("drive", "dict", 0), ("drive", "sizes", 0), ("mc", "Mc", "McWire"), ("mc", "Mc", "McWirePairs"), ("drive", "rt", n(t, 1500, 60000)), ("drive", "rtlist", n(t, 300, 10000)), ("drive", "bigframes", n(t, 0, 1)), ("drive", "cprand", n(t, 200, 10000)), ("mc", "Mc", "McLoose")], exhaustive_note=WIRE_NOTE)
 prop("C09", lambda t, s: [("conc", n(t, 1, 10)), ("mc", "Mc", "McForeignPairs"), ("drive", "dict", 0), ("mc", "Mc", n(t, "McFaults", "McFaults2")), ("mc", "Mc", "McFaultsDev"), ("drive", "fuzzdgram", n(t, 8000, 300000))],
      exhaustive_note="McFaults enumerates every first-order fault on the tiny domain and follows every accepted datagram through Marshal and a second decode")
 prop("C10", lambda t, s: [("drive", "dict", 0), ("mc", "Mc", "McWireUnk"), ("mc", "Mc", "McWire"), ("mc", "Mc", "McWirePairs"), ("mc", "Mc", "McReuse"), ("mc", "Mc", n(t, "McHist", "McHist4")), ("drive", "histrand", n(t, 300, 10000)), ("mc", "Mc", n(t, "McCompound", "McCompound4")), ("drive", "rt", n(t, 1500, 60000)), ("drive", "cprand", n(t, 300, 20000))],
@@ -72,16 +72,16 @@ prop("C11", lambda t, s: [("mc", "Mc", n(t, "McCompound", "McCompound4")), ("dri
 prop("C12", lambda t, s: [("conc", n(t, 1, 10)), ("mc", "NackAlg", n(t, "McNack", "McNackThorough")), ("drive", "nackrand", n(t, 1500, 60000)), ("drive", "sweeps12", n(t, 65537, 1))],
      exhaustive_note="McNack enumerates every list of up to 3 sequence numbers over 17 (thorough: 26) boundary values, Range with every stop position on every pair built from lists of up to 2, and the complete 2^16 bitmap table at 2 (thorough: 6) packet IDs")
 
-prop("C13", lambda t, s: [("mc", "Mc", "McReuse"), ("mc", "TwccAlg", n(t, "McTwcc", "McTwccThorough")), ("mc", "TwccAlg", "McTwcc3"), ("drive", "twccfuzz", n(t, 3000, 100000)), ("drive", "fuzz", n(t, 400, 10000)), ("drive", "amplify", 0)],
+prop("C13", lambda t, s: [("drive", "dict", 0), ("mc", "Mc", "McReuse"), ("mc", "TwccAlg", n(t, "McTwcc", "McTwccThorough")), ("mc", "TwccAlg", "McTwcc3"), ("drive", "twccfuzz", n(t, 3000, 100000)), ("drive", "fuzz", n(t, 400, 10000)), ("drive", "amplify", 0)],
      exhaustive_note="McTwcc enumerates every status sequence of length 0..5 (thorough: 0..7) over {not received, small, large} in every chunking (run-length splits, 1-bit and 2-bit vectors, run-length overshoot 1 and 8191), plus two-run sequences with run lengths straddling 7 and 14 in six systematic chunkings; McTwcc3 does the same over four symbols (including the reserved symbol 3) up to length 4")
 
-prop("C14", lambda t, s: [("mc", "RembAlg", n(t, "McRemb", "McRembThorough")), ("mc", "Mc", "McWireRemb"), ("mc", "Mc", "McReuseDev"), ("drive", "rembrand", n(t, 300, 20000)), ("drive", "sweeps14", n(t, 65537, 1)), ("drive", "amplify", 0)],
+prop("C14", lambda t, s: [("drive", "dict", 0), ("mc", "RembAlg", n(t, "McRemb", "McRembThorough")), ("mc", "Mc", "McWireRemb"), ("mc", "Mc", "McReuseDev"), ("drive", "rembrand", n(t, 300, 20000)), ("drive", "sweeps14", n(t, 65537, 1)), ("drive", "amplify", 0)],
      exhaustive_note="McRemb steps the decoder loop on 53 structured mantissas x 5 exponents and the encoder loop on 128 boundary floats, and emits the complete 2^18 mantissa table at exponent 0 (thorough: at 0, 1, 31, 62, 63) plus the structured rows at 6 (thorough: all 64) exponents; the scaling lemma RowOK extends the exponent-0 table to the other exponents; the encoder is covered by the complete table of the 2^18 integers (thorough: also the 2^17 leading-18-bit values at one exponent) plus Go sweeps of the lemmas EncLemmas over all floats of each range (exhaustive in the thorough tier, every 4097th in the quick tier)")
 
-prop("C15", lambda t, s: [("mc", "Mc", "McWirePairs"), ("mc", "Mc", "McWireUnk"), ("mc", "XrWalk", n(t, "McXr", "McXrThorough")), ("mc", "Mc", "McWireXr"), ("drive", "xrrand", n(t, 1500, 60000)), ("drive", "bigframes", n(t, 0, 1)), ("drive", "amplify", 0)],
+prop("C15", lambda t, s: [("drive", "dict", 0), ("mc", "Mc", "McWirePairs"), ("mc", "Mc", "McWireUnk"), ("mc", "XrWalk", n(t, "McXr", "McXrThorough")), ("mc", "Mc", "McWireXr"), ("drive", "xrrand", n(t, 1500, 60000)), ("drive", "bigframes", n(t, 0, 1)), ("drive", "amplify", 0)],
      exhaustive_note="McXr enumerates every sequence of 0..2 (thorough: 0..3) report blocks over 17 block choices (the 7 defined kinds, unknown types 0, 8, 255 with different contents, empty and longer lists, other flag combinations) and walks each encoding with an independent block walker; McWireXr sweeps the XR star domain")
 
-prop("C16", lambda t, s: [("mc", "UnitsMc", "McUnitsThorough"), ("mc", "Mc", "McWireUnits"), ("mc", "Mc", "McWirePairs"), ("drive", "units", n(t, 2000, 50000)), ("drive", "sweeps16", n(t, 65537, 1)), ("mc", "Mc", "McLoose")],
+prop("C16", lambda t, s: [("drive", "dict", 0), ("mc", "UnitsMc", "McUnitsThorough"), ("mc", "Mc", "McWireUnits"), ("mc", "Mc", "McWirePairs"), ("drive", "units", n(t, 2000, 50000)), ("drive", "sweeps16", n(t, 65537, 1)), ("mc", "Mc", "McLoose")],
      exhaustive_note="McUnits checks and emits rows of 256 consecutive wire words of the 2^16 tables of run-length chunks, status-vector chunks, 2-octet deltas, metric blocks, RLE chunks and header lengths (all 256 rows of each, in both tiers), the complete 1-octet delta table and the header octet-0 x PT table; the thorough tier adds exhaustive Go sweeps of all 2^24 loss counts, all 2^32 header words, NACK pairs and SLI words (quick: every 65537th)")
 
 prop("C17", lambda t, s: [("drive", "dict", 0), ("mc", "Mc", "McWire"), ("mc", "Mc", "McWirePairs"), ("mc", "Mc", n(t, "McFaults", "McFaults2")), ("mc", "Mc", "McFaultsDev"), ("drive", "strings", n(t, 1500, 60000)), ("drive", "fuzz", n(t, 600, 30000)), ("drive", "cprand", n(t, 200, 10000))],
